@@ -33,8 +33,11 @@ package nodenumaresource
 
 import (
 	"context"
+	"encoding/json"
 	"fmt"
+	"runtime/debug"
 	"sort"
+	"strings"
 	"testing"
 
 	corev1 "k8s.io/api/core/v1"
@@ -42,14 +45,16 @@ import (
 	metav1 "k8s.io/apimachinery/pkg/apis/meta/v1"
 	"k8s.io/apimachinery/pkg/types"
 	fwktype "k8s.io/kube-scheduler/framework"
+	k8sschedconfig "k8s.io/kubernetes/pkg/scheduler/apis/config"
 	"k8s.io/kubernetes/pkg/scheduler/framework"
 	st "k8s.io/kubernetes/pkg/scheduler/testing"
 	"k8s.io/utils/ptr"
 
 	"github.com/koordinator-sh/koordinator/apis/extension"
 	schedulingv1alpha1 "github.com/koordinator-sh/koordinator/apis/scheduling/v1alpha1"
+	schedulingconfig "github.com/koordinator-sh/koordinator/pkg/scheduler/apis/config"
 	"github.com/koordinator-sh/koordinator/pkg/scheduler/frameworkext"
-	"github.com/koordinator-sh/koordinator/pkg/util/cpuset"
+	"github.com/koordinator-sh/koordinator/pkg/scheduler/frameworkext/schedulingphase"
 	reservationutil "github.com/koordinator-sh/koordinator/pkg/util/reservation"
 	kit "github.com/koordinator-sh/koordinator/pkg/verifkit"
 )
@@ -61,17 +66,22 @@ type c06Resv struct {
 }
 
 type c06PodShape struct {
-	milli    int64
-	mem      int64
-	cpuset   bool
-	bind     extension.CPUBindPolicy
-	required bool
-	ignored  bool
-	policy   extension.NUMATopologyPolicy
+	milli     int64
+	mem       int64
+	huge      int64
+	cpuset    bool
+	lse       bool
+	bind      extension.CPUBindPolicy
+	required  bool
+	excl      extension.CPUExclusivePolicy
+	ignored   bool
+	policy    extension.NUMATopologyPolicy
+	exclusive extension.NumaTopologyExclusive
+	prio      int32
 }
 
 func (s c06PodShape) String() string {
-	return fmt.Sprintf("cpu=%dm mem=%d cpuset=%v bind=%s required=%v ignoreReservations=%v podPolicy=%q", s.milli, s.mem, s.cpuset, s.bind, s.required, s.ignored, s.policy)
+	return fmt.Sprintf("cpu=%dm mem=%d huge=%d cpuset=%v lse=%v bind=%s required=%v excl=%s ignoreReservations=%v podPolicy=%q numaExclusive=%q prio=%d", s.milli, s.mem, s.huge, s.cpuset, s.lse, s.bind, s.required, s.excl, s.ignored, s.policy, s.exclusive, s.prio)
 }
 
 func c06ShapeMeta(s c06PodShape) (map[string]string, map[string]string) {
@@ -79,7 +89,10 @@ func c06ShapeMeta(s c06PodShape) (map[string]string, map[string]string) {
 	annotations := map[string]string{}
 	if s.cpuset {
 		labels[extension.LabelPodQoS] = string(extension.QoSLSR)
-		spec := &extension.ResourceSpec{}
+		if s.lse {
+			labels[extension.LabelPodQoS] = string(extension.QoSLSE)
+		}
+		spec := &extension.ResourceSpec{PreferredCPUExclusivePolicy: s.excl}
 		if s.required {
 			spec.RequiredCPUBindPolicy = s.bind
 		} else {
@@ -94,8 +107,9 @@ func c06ShapeMeta(s c06PodShape) (map[string]string, map[string]string) {
 	if s.ignored {
 		labels[extension.LabelReservationIgnored] = "true"
 	}
-	if s.policy != "" {
-		annotations[extension.AnnotationNUMATopologySpec] = fmt.Sprintf(`{"numaTopologyPolicy":%q}`, string(s.policy))
+	if s.policy != "" || s.exclusive != "" {
+		numaSpec, _ := json.Marshal(extension.NUMATopologySpec{NUMATopologyPolicy: s.policy, SingleNUMANodeExclusive: s.exclusive})
+		annotations[extension.AnnotationNUMATopologySpec] = string(numaSpec)
 	}
 	return labels, annotations
 }
@@ -105,46 +119,117 @@ func c06ShapeSpec(s c06PodShape) corev1.PodSpec {
 	if s.mem > 0 {
 		reqs[corev1.ResourceMemory] = *resource.NewQuantity(s.mem, resource.BinarySI)
 	}
+	if s.huge > 0 {
+		reqs[c06Hugepages] = *resource.NewQuantity(s.huge, resource.BinarySI)
+	}
 	return corev1.PodSpec{
-		Priority:   ptr.To[int32](extension.PriorityProdValueMax),
+		Priority:   ptr.To[int32](s.prio),
 		Containers: []corev1.Container{{Name: "main", Resources: corev1.ResourceRequirements{Requests: reqs}}},
 	}
 }
 
+// c06GuardKnownPanic runs f. The index-out-of-range panic of topologymanager.checkExclusivePolicy on nodes whose
+// NUMA ids are not 0..k-1 (finding C06/panic/topologymanager.checkExclusivePolicy) is reported and the case goes on
+// (report-and-continue); any other panic is reported under the frame that raised it and ends the case.
+func c06GuardKnownPanic(c *kit.Case, f func()) (panicked bool) {
+	defer func() {
+		e := recover()
+		if e == nil {
+			return
+		}
+		stack := string(debug.Stack())
+		if strings.Contains(stack, "topologymanager.checkExclusivePolicy(") {
+			c.Report("C06/panic/topologymanager.checkExclusivePolicy", "panic: %v\n%s", e, stack)
+			c.Count("resv_known_panics_exclusive_status_index", 1)
+			panicked = true
+			return
+		}
+		fn := "unknown"
+		lines := strings.Split(stack, "\n")
+		seenPanic := false
+		for i := 0; i+1 < len(lines); i++ {
+			l := lines[i]
+			if strings.HasPrefix(l, "panic(") {
+				seenPanic = true
+				continue
+			}
+			if seenPanic && strings.Contains(l, "github.com/koordinator-sh/koordinator/") && !strings.Contains(lines[i+1], "zz_verif_") && !strings.Contains(l, "verifkit") {
+				fn = l
+				if p := strings.LastIndex(fn, "("); p > 0 {
+					fn = fn[:p]
+				}
+				if j := strings.LastIndex(fn, "/"); j >= 0 {
+					fn = fn[j+1:]
+				}
+				break
+			}
+		}
+		c.Fail("C06/panic/"+fn, "panic: %v\n%s", e, stack)
+	}()
+	f()
+	return false
+}
+
 func TestVerifC06ReservationCycles(t *testing.T) {
-	kit.Run(t, kit.Config{Property: "C06", Unit: "resv-cycle", Quick: 300, Thorough: 9000,
-		Rule: "one node with a real Plugin (package test suite), NUMA topology policy single-numa-node/restricted/best-effort on the node (label or NodeResourceTopology) or on the pods, 1-4 NUMA nodes, 15% with CPU amplification 1.5/2; 20-45 steps: scheduling cycles run step by step (PreRestoreReservation, RestoreReservation, PreFilter, Filter incl. topology-manager hints, FilterNominateReservation, Score, then evaluation-only or Reserve, sometimes Unreserve) for reserve pods, owner pods matching 1-n reservations (default/aligned/restricted allocate policy), unrelated pods and reservation-ignoring pods, NUMA-amount-only (LS) and cpuset (LSR) shapes; pod deletions, reservation deletions, informer echoes; book oracle after every step including the read-only ones; distinct = (numa nodes, policy, step kind, #matched, #unmatched, max owners of a restored reservation, shape class, outcome); non-trivial = a node was evaluated while a restored reservation had >= 2 owner pods or >= 2 reservations were matched"},
+	kit.Run(t, kit.Config{Property: "C06", Unit: "resv-cycle", Quick: 260, Thorough: 9000,
+		Rule: "one node with a real Plugin (package test suite), NUMA topology policy single-numa-node/restricted/best-effort on the node (label or NodeResourceTopology) or on the pods (with NUMA-exclusive preferred/required), 1-4 sockets / 1-6 NUMA nodes with ids contiguous, with holes, interleaved or offset, 1/2/4 threads, three cpu-id layouts, reserved CPUs (scattered/whole cores/whole NUMA node/lowest ids), cpu/memory(/hugepages) zones, maxRefCount 1-3, 20% CPU amplification 1.1/1.5/2/3, node cpu-bind-policy and numa-allocate-strategy labels, plugin args (default bind policy, NUMA scoring strategy); 18-40 steps: scheduling cycles run step by step (PreRestoreReservation, RestoreReservation, PreFilter, Filter incl. topology-manager hints, FilterNominateReservation, Score, then evaluation-only or Reserve, sometimes Unreserve; when Filter refuses, 60%: the preemption dry run RemovePod(1-3 lower-priority victims)/Filter/AddPod/Filter on the cloned state) for reserve pods, owner pods matching 1-n reservations (default/aligned/restricted allocate policy), unrelated pods and reservation-ignoring pods, NUMA-amount-only (LS) and cpuset (LSR/LSE; all bind and exclusive policies, preferred or required) shapes; pod deletions, reservation deletions, informer echoes; book oracle after every step including the read-only ones; distinct = (numa nodes, policy, step kind, #matched, #unmatched, max owners of a restored reservation, shape class, outcome); non-trivial = a node was evaluated while a restored reservation had >= 2 owner pods or >= 2 reservations were matched"},
 		func(c *kit.Case) {
 			r := c.R
 			ctx := context.TODO()
 			// ---- node
-			tp := c06Topo{sockets: r.Range(1, 2), nodesPerSocket: kit.Pick(r, []int{1, 1, 2}), coresPerNode: r.Range(2, 6), threads: kit.Pick(r, []int{1, 2, 2}), sparse: r.Pct(30)}
-			tp = c06BuildTopo(tp)
+			// at most 6 NUMA nodes: GetTopologyHints evaluates every subset of them
+			tp := c06Topo{sockets: kit.Pick(r, []int{1, 1, 1, 2, 2, 2, 3, 4}), nodesPerSocket: kit.Pick(r, []int{1, 1, 2}), coresPerNode: r.Range(2, 6), threads: kit.Pick(r, []int{1, 2, 2, 4})}
+			if tp.sockets*tp.nodesPerSocket > 6 {
+				tp.nodesPerSocket = 1
+			}
+			tp.layout = r.Weighted(50, 30, 20)
+			if r.Pct(10) {
+				tp.idGap, tp.idBase = kit.Pick(r, []int{1, 3, 7}), kit.Pick(r, []int{0, 1, 64})
+			}
+			tp.nodeMode = r.Weighted(64, 14, 14, 8)
+			tp.socketMode = r.Weighted(90, 10)
+			tp.coreMode = r.Weighted(50, 30, 20)
+			tp = c06BuildTopo(tp, nil)
 			topo := tp.topo
 			memPerNode := int64(kit.Pick(r, []int{64, 256, 1000}))
-			var numaRes []NUMANodeResource
-			for n := 0; n < topo.NumNodes; n++ {
-				numaRes = append(numaRes, NUMANodeResource{Node: n, Resources: corev1.ResourceList{
-					corev1.ResourceCPU:    *resource.NewMilliQuantity(int64(topo.CPUsPerNode())*1000, resource.DecimalSI),
-					corev1.ResourceMemory: *resource.NewQuantity(memPerNode, resource.BinarySI),
-				}})
-			}
+			reserved := c06GenReserved(r, tp)
+			numaRes := c06GenNUMARes(r, tp, reserved, memPerNode)
 			policies := []extension.NUMATopologyPolicy{extension.NUMATopologyPolicySingleNUMANode, extension.NUMATopologyPolicyRestricted, extension.NUMATopologyPolicyBestEffort}
 			nodePolicy := kit.Pick(r, policies)
 			podLevel := r.Pct(20)
 			capacity := map[corev1.ResourceName]string{"cpu": fmt.Sprint(topo.NumCPUs), "memory": fmt.Sprint(memPerNode * int64(topo.NumNodes)), "pods": "200"}
 			node := st.MakeNode().Name(c06NodeName).Capacity(capacity).Obj()
 			ratio := extension.Ratio(1)
-			if r.Pct(15) {
+			if r.Pct(20) {
 				// CPU amplification: node annotation + amplified allocatable, as the node resource controller/webhook publish it
-				ratio = kit.Pick(r, []extension.Ratio{1.5, 2})
+				ratio = kit.Pick(r, []extension.Ratio{1.1, 1.5, 2, 3})
 				node = makeNode(c06NodeName, capacity, ratio)
 			}
 			viaLabel := r.Bool()
 			if !podLevel && viaLabel {
 				extension.SetNodeNUMATopologyPolicy(node, nodePolicy)
 			}
+			if node.Labels == nil {
+				node.Labels = map[string]string{}
+			}
+			if r.Pct(12) {
+				// the node demands cpu binding for every pod with whole CPUs (label, or the kubelet's static policy)
+				node.Labels[extension.LabelNodeCPUBindPolicy] = string(kit.Pick(r, []extension.NodeCPUBindPolicy{extension.NodeCPUBindPolicyFullPCPUsOnly, extension.NodeCPUBindPolicySpreadByPCPUs}))
+			}
+			if r.Pct(30) {
+				node.Labels[extension.LabelNodeNUMAAllocateStrategy] = string(kit.Pick(r, c06Strategies))
+			}
 			suit := newPluginTestSuit(t, nil, []*corev1.Node{node})
+			// plugin arguments: default bind policy and NUMA scoring strategy are configuration, not constants
+			if r.Pct(25) {
+				suit.nodeNUMAResourceArgs.DefaultCPUBindPolicy = schedulingconfig.CPUBindPolicySpreadByPCPUs
+			}
+			if r.Pct(50) {
+				suit.nodeNUMAResourceArgs.NUMAScoringStrategy = &schedulingconfig.ScoringStrategy{
+					Type: kit.Pick(r, []schedulingconfig.ScoringStrategyType{schedulingconfig.MostAllocated, schedulingconfig.LeastAllocated}),
+					Resources: []k8sschedconfig.ResourceSpec{{Name: string(corev1.ResourceCPU), Weight: 1}, {Name: string(corev1.ResourceMemory), Weight: int64(r.Range(1, 3))}},
+				}
+			}
 			p, err := suit.proxyNew(ctx, suit.nodeNUMAResourceArgs, suit.Handle)
 			if err != nil {
 				c.Harness("plugin: %v", err)
@@ -158,10 +243,11 @@ func TestVerifC06ReservationCycles(t *testing.T) {
 			if !ok {
 				c.Harness("unexpected nominator %T", pl.handle.GetReservationNominator())
 			}
-			maxRef := kit.Pick(r, []int{1, 1, 1, 1, 2})
+			maxRef := kit.Pick(r, []int{1, 1, 1, 1, 2, 3})
 			pl.topologyOptionsManager.UpdateTopologyOptions(c06NodeName, func(o *TopologyOptions) {
 				o.CPUTopology = topo
 				o.MaxRefCount = maxRef
+				o.ReservedCPUs = reserved
 				for _, nr := range numaRes {
 					o.NUMANodeResources = append(o.NUMANodeResources, NUMANodeResource{Node: nr.Node, Resources: nr.Resources.DeepCopy()})
 				}
@@ -173,13 +259,19 @@ func TestVerifC06ReservationCycles(t *testing.T) {
 			if nodeInfo == nil || nodeInfo.Node() == nil {
 				c.Harness("node missing from the snapshot")
 			}
-			c.Op("node topo=%s mem/node=%d policy=%s (podLevel=%v viaLabel=%v) maxRef=%d cpuAmplification=%v", tp, memPerNode, nodePolicy, podLevel, viaLabel, maxRef, ratio)
+			c.Op("node topo=%s reserved=%s numa=%s policy=%s (podLevel=%v viaLabel=%v) maxRef=%d cpuAmplification=%v labels=%v defaultBind=%s", tp, reserved.String(), c06NUMAResStr(numaRes), nodePolicy, podLevel, viaLabel, maxRef, ratio, node.Labels, suit.nodeNUMAResourceArgs.DefaultCPUBindPolicy)
+			if !reserved.IsEmpty() {
+				c.Count("resv_rounds_with_reserved_cpus", 1)
+			}
+			if tp.nodeMode != 0 {
+				c.Count("resv_rounds_numa_ids_not_0_to_k", 1)
+			}
 			if ratio > 1 {
 				c.Count("resv_rounds_with_cpu_amplification", 1)
 			}
 
 			book := c06NewBook()
-			spec := c06LedgerSpec{topo: topo, maxRef: maxRef, reserved: cpuset.NewCPUSet(), numaCap: numaRes, capacity: false}
+			spec := c06LedgerSpec{topo: topo, maxRef: maxRef, reserved: reserved, numaCap: numaRes, capacity: false}
 			check := func(where string) { c06CheckBook(c, rm, c06NodeName, spec, book, where) }
 
 			var resvs []*c06Resv
@@ -188,9 +280,12 @@ func TestVerifC06ReservationCycles(t *testing.T) {
 			seq := 0
 
 			genShape := func(forReservation bool) c06PodShape {
-				s := c06PodShape{}
+				s := c06PodShape{prio: int32(r.Range(int(extension.PriorityProdValueMin), int(extension.PriorityProdValueMax)))}
 				s.cpuset = r.Pct(25)
 				maxCPU := maxInt(1, topo.CPUsPerNode())
+				if r.Pct(10) {
+					maxCPU = maxInt(1, topo.NumCPUs/2) // larger than one NUMA node
+				}
 				if forReservation {
 					s.milli = int64(r.Range(1, maxCPU)) * 1000
 					s.mem = int64(r.Range(0, int(memPerNode/2)))
@@ -200,14 +295,22 @@ func TestVerifC06ReservationCycles(t *testing.T) {
 				}
 				if s.cpuset {
 					s.milli = (s.milli + 999) / 1000 * 1000
-					s.bind = kit.Pick(r, []extension.CPUBindPolicy{extension.CPUBindPolicyFullPCPUs, extension.CPUBindPolicySpreadByPCPUs})
+					s.bind = kit.Pick(r, []extension.CPUBindPolicy{extension.CPUBindPolicyFullPCPUs, extension.CPUBindPolicySpreadByPCPUs, extension.CPUBindPolicyDefault, extension.CPUBindPolicyConstrainedBurst})
 					s.required = r.Pct(30)
+					s.lse = r.Pct(20)
+					s.excl = kit.Pick(r, []extension.CPUExclusivePolicy{"", "", extension.CPUExclusivePolicyNone, extension.CPUExclusivePolicyPCPULevel, extension.CPUExclusivePolicyNUMANodeLevel})
+				}
+				if r.Pct(10) {
+					s.huge = int64(r.Range(1, 8))
 				}
 				if !forReservation {
 					s.ignored = r.Pct(8)
 				}
 				if podLevel {
 					s.policy = kit.Pick(r, append([]extension.NUMATopologyPolicy{""}, policies...))
+				}
+				if r.Pct(12) {
+					s.exclusive = kit.Pick(r, []extension.NumaTopologyExclusive{extension.NumaTopologyExclusivePreferred, extension.NumaTopologyExclusiveRequired})
 				}
 				return s
 			}
@@ -218,6 +321,61 @@ func TestVerifC06ReservationCycles(t *testing.T) {
 					out = append(out, x.r.Name)
 				}
 				return out
+			}
+
+			// preemptEval: the pod did not fit; the preemption dry run of PostFilter for this node: the plugin's
+			// RemovePod for 1-3 lower-priority victims, Filter on the cloned state, AddPod for one reprieved victim,
+			// Filter again. Nothing is booked. The reservation a victim was allocated from is told by the reservation
+			// cache; the test suite has none and the plugin then asks the nominator, so the owners are registered there
+			// for the duration of the evaluation.
+			preemptEval := func(cs fwktype.CycleState, pod *corev1.Pod) {
+				var cands []types.UID
+				for uid, v := range pods {
+					if *v.Spec.Priority < *pod.Spec.Priority {
+						cands = append(cands, uid)
+					}
+				}
+				if len(cands) == 0 {
+					return
+				}
+				sort.Slice(cands, func(i, j int) bool { return cands[i] < cands[j] })
+				kit.Shuffle(r, cands)
+				if len(cands) > 3 {
+					cands = cands[:3]
+				}
+				cands = cands[:r.Range(1, len(cands))]
+				cs2 := cs.Clone()
+				schedulingphase.RecordPhase(cs2, schedulingphase.PostFilter)
+				for uid, o := range ownerOf {
+					nominator.AddNominatedReservation(pods[uid], c06NodeName, o.rInfo.Clone())
+				}
+				defer func() {
+					for uid := range ownerOf {
+						nominator.RemoveNominatedReservations(pods[uid])
+					}
+				}()
+				c.Op("  preemption dry run: victims %v", cands)
+				for _, uid := range cands {
+					pi, _ := framework.NewPodInfo(pods[uid])
+					pl.RemovePod(ctx, cs2, pod, pi, nodeInfo)
+					check("after RemovePod(" + string(uid) + ") in the preemption dry run for " + pod.Name)
+				}
+				var s *fwktype.Status
+				if c06GuardKnownPanic(c, func() { s = pl.Filter(ctx, cs2, pod, nodeInfo) }) {
+					return
+				}
+				check("after Filter in the preemption dry run for " + pod.Name)
+				c.Count("resv_preemption_dry_runs", 1)
+				if s.IsSuccess() {
+					c.Count("resv_preemption_dry_runs_fit", 1)
+				}
+				pi, _ := framework.NewPodInfo(pods[cands[0]])
+				pl.AddPod(ctx, cs2, pod, pi, nodeInfo)
+				check("after AddPod(" + string(cands[0]) + ") in the preemption dry run for " + pod.Name)
+				if c06GuardKnownPanic(c, func() { s = pl.Filter(ctx, cs2, pod, nodeInfo) }) {
+					return
+				}
+				check("after the second Filter in the preemption dry run for " + pod.Name)
 			}
 
 			// cycle runs one scheduling cycle of pod for this node. commit=false stops after the read-only steps.
@@ -239,7 +397,7 @@ func TestVerifC06ReservationCycles(t *testing.T) {
 				c.Op("cycle %s pod=%s {%s} matched=%v unmatched=%v nominated=%q commit=%v", kind, pod.Name, shape, uidsOf(matched), uidsOf(unmatched), nom, commit)
 				outcome := "?"
 				defer func() {
-					c.Seen("resv", topo.NumNodes, nodePolicy, podLevel, ratio > 1, kind, len(matched), len(unmatched), maxOwners, shape.cpuset, shape.required, shape.ignored, shape.policy, commit, outcome)
+					c.Seen("resv", topo.NumNodes, tp.nodeMode, nodePolicy, podLevel, ratio > 1, !reserved.IsEmpty(), kind, len(matched), len(unmatched), maxOwners, shape.cpuset, shape.required, shape.ignored, shape.policy, commit, outcome)
 				}()
 				cs := framework.NewCycleState()
 				if s := pl.PreRestoreReservation(ctx, cs, pod); !s.IsSuccess() {
@@ -268,13 +426,20 @@ func TestVerifC06ReservationCycles(t *testing.T) {
 					c.Op("  PreFilter -> %s %s", s.Code(), s.Message())
 					return
 				}
-				s = pl.Filter(ctx, cs, pod, nodeInfo)
+				if c06GuardKnownPanic(c, func() { s = pl.Filter(ctx, cs, pod, nodeInfo) }) {
+					outcome = "panicked"
+					check("after the panic in Filter for " + pod.Name)
+					return
+				}
 				c.Count("resv_filter_calls", 1)
 				check("after Filter for " + pod.Name)
 				if !s.IsSuccess() {
 					outcome = "filtered"
 					c.Count("resv_filter_rejected", 1)
 					c.Op("  Filter -> %s %s", s.Code(), s.Message())
+					if r.Pct(60) {
+						preemptEval(cs, pod)
+					}
 					return
 				}
 				if nominated != nil {
@@ -301,7 +466,11 @@ func TestVerifC06ReservationCycles(t *testing.T) {
 					c.Count("resv_evaluations_only", 1)
 					return
 				}
-				s = pl.Reserve(ctx, cs, pod, c06NodeName)
+				if c06GuardKnownPanic(c, func() { s = pl.Reserve(ctx, cs, pod, c06NodeName) }) {
+					outcome = "panicked"
+					check("after the panic in Reserve of " + pod.Name)
+					return
+				}
 				state, _ := getPreFilterState(cs)
 				if !s.IsSuccess() {
 					outcome = "reserve-failed"
@@ -363,7 +532,7 @@ func TestVerifC06ReservationCycles(t *testing.T) {
 				return out
 			}
 
-			nsteps := r.Range(20, 45)
+			nsteps := r.Range(18, 40)
 			for step := 0; step < nsteps; step++ {
 				w := []int{14, 40, 12, 14, 5, 8, 7}
 				if len(resvs) == 0 {
